@@ -129,7 +129,10 @@ class DenseBlockDiagonalOperator(AbstractLinearOperator):
             raise ValueError(f'Several transposition axes have been specified: {subscripts!r}.')
         transpose_axis = transpose_axis_as_set.pop()
 
-        # we swap the transpose and sum axes
+        # we swap the transpose and sum axes, which only works if they appear once in the blocks
+        left_letters = lefts.replace('...', '')
+        if len(set(left_letters)) != len(left_letters):
+            raise ValueError(f'Repeated block subscripts cannot be transposed: {subscripts!r}.')
         sum_axis_number = lefts.index(sum_axis)
         transpose_axis_number = lefts.index(transpose_axis)
         lefts_as_list = list(lefts)
